@@ -31,12 +31,15 @@ theorem orE_none {α : Type} (a b : Option α) : orE a b = none ↔ a = none ∧
 def refusedTextB (t : Str) (q : Bool) : Bool :=
   decide ((analyze t (!q) false LINE).delimLength = 2) && (analyze t (!q) false LINE).containsTextDelim
 
-theorem refusedTextB_iff (t : Str) (q : Bool) : refusedTextB t q = true ↔ refusedText t q := by
-  simp [refusedTextB, refusedText]
+theorem refusedTextB_iff (t : Str) (q : Bool) : refusedTextB t q = true ↔
+    ((analyze t (!q) false LINE).delimLength = 2 ∧ (analyze t (!q) false LINE).containsTextDelim = true) := by
+  simp [refusedTextB]
 
-/-- `write_char` on the text `t` of the value `v`: the characters are validated first, then the presentation is chosen -/
+/-- `write_char` on the text `t` of the value `v`: a carriage return is refused first (as a value that cannot be expressed), then
+    the characters are validated, then the presentation is chosen -/
 def strFirst (q : Bool) (t : Str) (v : V) : Option Refused :=
-  if validate11 t = false then some (.chars t) else if refusedTextB t q then some (.value v) else none
+  if (13 : CU) ∈ t then some (.value v)
+  else if validate11 t = false then some (.chars t) else if refusedTextB t q then some (.value v) else none
 
 /-- a value: strings as above; a number goes through `write_char` only when it is quoted or longer than a line; lists and tables
     are refused as such (before anything inside them is looked at) -/
@@ -144,10 +147,16 @@ theorem first_writeChar (c : Ctx) (t : Str) (q : Bool) (v : V) (hc : c.isCif1 = 
     First Same c (writeChar c t q true) (strFirst q t v) := by
   have hnc : (!c.isCif1) = false := by simp [hc]
   unfold strFirst
+  by_cases h13 : (13 : CU) ∈ t
+  · rw [if_pos h13, Lemmas.WriterChar.writeChar_cr c t q true h13]
+    exact first_err c (.value v)
+  rw [if_neg h13]
+  have hcl : Lemmas.WriterChar.strClean c.isCif1 t = true :=
+    Lemmas.WriterChar.strClean_of _ t h13 (fun h => by rw [hc] at h; cases h)
   cases hv : validate11 t with
   | false =>
     simp only [if_true]
-    rw [Lemmas.WriterChar.writeChar_invalid c t q true ⟨hc, hv⟩]
+    rw [Lemmas.WriterChar.writeChar_clean c t q true hcl, Lemmas.WriterChar.writeChar_invalid c t q true ⟨hc, hv⟩]
     exact first_err c (.chars t)
   | true =>
     simp only [Bool.true_eq_false, if_false]
@@ -155,14 +164,16 @@ theorem first_writeChar (c : Ctx) (t : Str) (q : Bool) (v : V) (hc : c.isCif1 = 
     | true =>
       simp only [if_true]
       have hrt := (refusedTextB_iff t q).mp hr
-      rw [Lemmas.WriterChar.writeChar_delim2_refused c t q true (by simp [hv]) (by rw [hnc]; exact hrt.1)
-        (Or.inr ⟨by rw [hnc]; exact hrt.2, hc⟩)]
+      rw [Lemmas.WriterChar.writeChar_clean c t q true hcl,
+        Lemmas.WriterChar.writeChar_delim2_refused c t q true (by simp [hv]) (by rw [hnc]; exact hrt.1)
+          (Or.inr ⟨by rw [hnc]; exact hrt.2, hc⟩)]
       exact first_err c (.value v)
     | false =>
       simp only [Bool.false_eq_true, if_false]
-      have hnr : ¬ refusedText t q := fun h => by rw [(refusedTextB_iff t q).mpr h] at hr; cases hr
+      have hnr : ¬ ((analyze t (!q) false LINE).delimLength = 2 ∧ (analyze t (!q) false LINE).containsTextDelim = true) :=
+        fun h => by rw [(refusedTextB_iff t q).mpr h] at hr; cases hr
       exact first_of_good (writeChar_value_good_gen c t q (by simp [hv]) (by
-        rw [hnc]; intro d h; exact hnr ⟨d, h.1⟩) False)
+        rw [hnc]; intro d h; exact hnr ⟨d, h.1⟩) hcl False)
 
 theorem first_writeNumb (c : Ctx) (t : Str) (q : Bool) (v : V) (hc : c.isCif1 = true) (ht : t ≠ []) :
     First Same c (writeNumb c t q)
